@@ -236,6 +236,63 @@ def random_walks(seed, count, depth, ops=("begin", "commit", "cancel"), read_car
     return out
 
 
+def script_walks(chk, binary, wd, seed, count):
+    """impl -> spec at the level of reply scripts: every exchange of begin / commit / cancel / read_card / configure is answered by a
+    random script over the reply set of its command - any number (0..3) of non-final packets in any order, then a final one - built
+    from the specification's reply tables (Gen_Replies) with random well-formed packet bodies (structure-aware generator over the
+    exported layout).  The pending query keeps its regular answer (06 1E with a receipt number / FFFF / none).  What the real client
+    makes of each script is compared with FeigClient and judged by the P-specs (TraceClient)."""
+    import seq_common
+    layout, rp = seq_common.export_tables(wd)
+    rep = json.load(open(rp))
+    rnd = random.Random(seed * 7919 + 13)
+    cmds = {"Reservation": "Reservation", "PartialReversal": "PartialReversal", "PreAuthReversal": "PreAuthReversal", "EndOfDay": "EndOfDay",
+            "ReadCard": "ReadCard", "Initialization": "Initialization", "SetTerminalId": "SetTerminalId", "SysInfo": "GetSystemInfo"}
+    types = sorted({v["ty"] for c in cmds.values() for v in rep["replies"][rep["sequences"][c]["parser"]]})
+    pool = {}
+    cand = cc.random_cases(binary, layout, seed, 60 * len(types), "clean", wd, "scriptpool", types)
+    # only frames that decode are replies (an undecodable frame is a fault, the subject of C06 / C09); which of the generated frames
+    # decode is asked of the real decoder - this selects inputs, it judges nothing
+    rec = cc.run_cases(binary, [{"ty": r["ty"], "cls": "rand", "in": r["in"]} for r in cand], wd, "scriptpool")
+    for r in vlib.read_ndjson(rec):
+        if r["st"] == "ok" and r["rest"] == 0:
+            pool.setdefault(r["ty"], []).append(r["in"])
+    for t in types:
+        if not pool.get(t):
+            raise vlib.ToolError("no decodable random frame of type %s" % t)
+
+    def script(cmd):
+        sq = rep["sequences"][cmds[cmd]]
+        vs = rep["replies"][sq["parser"]]
+        fin = [v for v in vs if v["v"] in sq["finals"]] or vs
+        non = [v for v in vs if v["v"] not in sq["finals"]]
+        frames = []
+        if sq["loop"] and non:
+            for _ in range(rnd.choice([0, 0, 1, 1, 2, 3])):
+                frames.append(rnd.choice(pool[rnd.choice(non)["ty"]]))
+        frames.append(rnd.choice(pool[rnd.choice(fin if sq["loop"] else vs)["ty"]]))
+        return {"script": frames}
+    out = []
+    for _ in range(count):
+        kind = rnd.choice(["commit", "commit", "cancel", "cancel", "read_card", "configure", "two"])
+        cfg = {"max": rnd.choice([1, 2]), "pre": digits(rnd.choice([0, 2500, 10 ** 12 - 1])), "terminal_id": rnd.choice(["52523535", "11112222", "7"])}
+        dang = rnd.choice([[], [], [4711]])
+        if kind in ("commit", "cancel"):
+            calls = [{"op": "begin", "token": [97], "amount": []}, {"op": kind, "token": [97], "amount": digits(rnd.choice([0, 1, 2500, 2501]))}]
+        elif kind == "two":
+            calls = [{"op": "begin", "token": [97], "amount": []}, {"op": "begin", "token": [98], "amount": []},
+                     {"op": rnd.choice(["commit", "cancel"]), "token": [98], "amount": [1]}, {"op": rnd.choice(["commit", "cancel"]), "token": [97], "amount": [7]}]
+            cfg["max"] = 2
+        elif kind == "read_card":
+            calls = [{"op": "read_card"}, {"op": "read_card"}]
+        else:
+            calls = [{"op": "configure"}]
+        scripts = {c: [script(c) for _ in range(4)] for c in cmds}
+        out.append({"config": cfg, "term": {"dangling": dang, "next_receipt": rnd.choice([1, 9998])}, "calls": calls,
+                    "plan": {"exchanges": [], "scripts": scripts, "default": {"o": "ok", "status": {"amount": [1]}, "uid": [1, 2, 3, 4]}}})
+    return out
+
+
 def report(chk, outs, iflags, pflags, claim, what=None):
     """claim: the P-flag prefixes this property owns (e.g. {"P07"}); 'abnormal' is claimed when "abnormal" in claim."""
     psc = set()
